@@ -219,9 +219,11 @@ func (p *Prog) Files() map[string]string {
 		body := ""
 		for _, d := range p.Env.AllDecls() {
 			if d.Pkg == x {
-				body += declSrc(d, q, imps, func(*Type, map[string]bool) {})
+				body += declSrc(d, q, imps, p.noteImports)
 			}
 		}
+		delete(imps, "ext:"+x.Dir)
+		sb.WriteString(p.importBlock(imps))
 		sb.WriteString(body)
 		files[x.Dir+"/ext.go"] = gofmt(sb.String())
 	}
